@@ -33,6 +33,9 @@ type Engine struct {
 	globalInv []*Clause
 	trusted   []TrustedOb
 	trustedHit map[string]int
+	usedContracts map[string]bool
+	inlinedFns map[*ssa.Function]bool
+	opaqueUse map[*ssa.Function]bool
 	specFiles []*SpecFile
 	contracts map[string]*Contract
 	fns       map[string]*ssa.Function // by key
@@ -95,6 +98,9 @@ func (e *Engine) load() error {
 	e.compSorts = map[string]string{}
 	e.defaults = map[string]int{}
 	e.recClos = map[*ssa.Function]bool{}
+	e.usedContracts = map[string]bool{}
+	e.inlinedFns = map[*ssa.Function]bool{}
+	e.opaqueUse = map[*ssa.Function]bool{}
 	// enumerate functions of the target package (including closures and generic instances)
 	var fns []*ssa.Function
 	for fn := range ssautil.AllFunctions(prog) {
@@ -930,4 +936,12 @@ func (e *Engine) anyAxioms() string {
 		}
 	}
 	return sb.String()
+}
+
+// skipStandalone: closures that are only ever inlined into their parent are verified there, in context.
+func (e *Engine) skipStandalone(fn *ssa.Function) bool {
+	if fn.Parent() == nil || e.contractFor(fn) != nil || e.recClos[fn] {
+		return false
+	}
+	return e.inlinedFns[fn] && !e.opaqueUse[fn]
 }
